@@ -6,20 +6,30 @@ session: /var/tmp/seeds/<prop>/, the trial logs (tools/try_seed.sh) and the conf
 import glob, json, os, re, shutil, sys
 SEEDS = "/var/tmp/seeds"
 OUT = "/verif/seeded"
-trial, sites = {}, {}
-for f in sorted(glob.glob("/var/tmp/seed_round*.log")):
+# a seed is identified by the property it was made for (its directory) and its index; it may have been tried against
+# the check of another property too (e.g. a change in `parallel`-only code is C14's subject): results per check,
+# later trials override earlier ones (checks were extended after a miss and the change re-tried)
+trials, sites, history = {}, {}, {}
+for f in sorted(glob.glob("/var/tmp/seed_round*.log"), key=os.path.getmtime):
     buf = []
     for line in open(f, errors="replace"):
-        m = re.match(r"RESULT (C\d+) (\S+)/m(\d)\.diff (\S+)", line)
+        m = re.match(r"RESULT (C\d+) \S*/(C\d+)/m(\d)\.diff (\S+)", line)
         if m:
-            key = f"{m.group(1)}-m{m.group(3)}"
-            trial[key] = m.group(4)          # later rounds override earlier ones
-            sites[key] = sorted(set(re.findall(r"replay=/verif/replays/(C\d+-[^ ]+?)-\d+\.json", "".join(buf))))[:12]
+            key = f"{m.group(2)}-m{m.group(3)}"
+            trials.setdefault(key, {})[m.group(1)] = m.group(4)
+            history.setdefault(key, []).append(f"{m.group(1)}:{m.group(4)}")
+            if m.group(4) == "DETECTED":
+                sites[key] = sorted(set(re.findall(r"replay=/verif/replays/(C\d+-[^ ]+?)-\d+\.json", "".join(buf))))[:12]
             buf = []
         else:
             buf.append(line)
+trial = {}
+for key, per in trials.items():
+    own = key.split("-")[0]
+    det = [c for c, r in per.items() if r == "DETECTED"]
+    trial[key] = "DETECTED" if det else per.get(own, list(per.values())[-1])
 confirm = {}
-for f in glob.glob("/var/tmp/confirm_lane*.log"):
+for f in sorted(glob.glob("/var/tmp/confirm_lane*.log"), key=os.path.getmtime):
     for line in open(f, errors="replace"):
         m = re.match(r"CONFIRM (\S+) demo_without=(\S+) demo_with=(\S+) suite_with=(\S+) \[(.*)\]", line)
         if m:
@@ -28,7 +38,7 @@ extra = json.load(open("/var/tmp/seed_extra.json")) if os.path.exists("/var/tmp/
 n = 0
 for d in sorted(glob.glob(f"{SEEDS}/C*")):
     prop = os.path.basename(d)
-    for i in (1, 2, 3, 4, 5, 6):
+    for i in range(1, 10):
         key = f"{prop}-m{i}"
         diff, demo, md = f"{d}/m{i}.diff", f"{d}/m{i}_demo.rs", f"{d}/m{i}.md"
         if not (os.path.exists(diff) and key in trial and (key in confirm or key in extra)):
@@ -51,7 +61,8 @@ for d in sorted(glob.glob(f"{SEEDS}/C*")):
             "needs_to_manifest": needs,
             "made_by": "isolated sub-agent given only the property text and its own git worktree of /repo (nothing from /verif)",
             "confirmed_in_scratch_worktree": dict(c, how="tools/confirm_seed.sh: demo dropped into the crate's tests/ (cargo test --test), whole pinned suite with `cargo nextest run --workspace --no-fail-fast --offline`, each on a fresh worktree of /repo main"),
-            "detection": {"command": f"./check {prop} --tier quick (against a scratch copy with the patch applied, via VERIF_REPO_OVERRIDE; tools/try_seed.sh)", "result": trial[key], "first_violation_sites": sites.get(key, [])},
+            "detection": {"command": "./check <property> --tier quick (against a scratch copy with the patch applied, via VERIF_REPO_OVERRIDE; tools/try_seed.sh)",
+                          "result": trial[key], "per_check": trials[key], "trial_history": history.get(key, []), "first_violation_sites": sites.get(key, [])},
         }
         json.dump(meta, open(f"{o}/meta.json", "w"), indent=1)
         n += 1
